@@ -15,6 +15,7 @@ def compare(cmp, impl, model):
     return None
 
 CFG = dict(
+    src_tables=True,   # tools/gen_tables.py + Proofs/SrcTablesOk.v: tables regenerated from the Rust source on every run
     bins=["c18"],
     imports=["Run.RunC18"],
     exhaustive=False,
